@@ -521,7 +521,7 @@ pub fn corner_tuples(fam: &str) -> Vec<Vec<Arg>> {
         "InverseGamma" => vec![f(&[1.0, 2.0]), f(&[2.0, 1.0]), f(&[3.0, 0.5])],
         "Erlang" => vec![vec![Arg::I(1), Arg::F(2.0)], vec![Arg::I(160), Arg::F(1.0)]],
         "Chi" => vec![vec![Arg::I(1)], vec![Arg::I(2)], vec![Arg::I(31)], vec![Arg::I(160)], vec![Arg::I(161)], vec![Arg::I(300)], vec![Arg::I(301)]],
-        "ChiSquared" => vec![f(&[1.0]), f(&[2.0]), f(&[4.0])],
+        "ChiSquared" => vec![f(&[1.0]), f(&[2.0]), f(&[4.0]), f(&[0.99]), f(&[0.75]), f(&[0.4])],
         "Hypergeometric" => vec![[0, 0, 0], [10, 0, 5], [10, 10, 10], [10, 5, 0], [10, 5, 10], [50, 25, 25], [10, 3, 5]].iter().map(|t| t.iter().map(|x| Arg::I(*x as i128)).collect()).collect(),
         "DiscreteUniform" => vec![vec![Arg::I(3), Arg::I(3)], vec![Arg::I(-5), Arg::I(5)]],
         "Uniform" => vec![f(&[0.0, 1.0]), f(&[-100.0, 100.0])],
